@@ -1,4 +1,4 @@
-import Rtsp.Proofs.Sdp.FmtText
+import Rtsp.Proofs.Sdp.Good
 /-
 Media layer: `format.Unmarshal` finds, in the attributes `Media.Marshal` wrote, each format's own
 rtpmap / fmtp and rebuilds the format; `Media.Unmarshal` rebuilds the media.
@@ -444,9 +444,9 @@ theorem postAttrs_keys (ab : Bool) (m : Media) : ∀ a ∈ postAttrs ab m, a.key
 
 /-- **`format.Unmarshal` on the library's own media description**: for each format of a valid media, looking
 it up by its payload type in what `Media.Marshal` wrote rebuilds the format. -/
-theorem unmarshalFormat_marshal (O : Oracle) (ab : Bool) (m : Media) (hm : ValidMedia O m) (f : Format) (hf : f ∈ m.formats) :
+theorem unmarshalFormat_marshal (O : Oracle) (ab : Bool) (m : Media) (hm : GoodMedia O m) (f : Format) (hf : f ∈ m.formats) :
     unmarshalFormat O (marshalMedia ab m) (dec f.pt) = .ok f := by
-  have hok : ∀ g ∈ m.formats, FmtTextOk g := fun g hg => fmtTextOk (hm.formats_ok g hg)
+  have hok : ∀ g ∈ m.formats, FmtTextOk g := fun g hg => (hm.formats_ok g hg).1
   have hfo := hok f hf
   have hpre_r : ∀ a ∈ preAttrs m, a.key ≠ b!"rtpmap" := by
     intro a ha; rcases preAttrs_keys m a ha with h | h | h | h <;> (rw [h]; decide)
@@ -470,9 +470,9 @@ theorem unmarshalFormat_marshal (O : Oracle) (ab : Bool) (m : Media) (hm : Valid
   have hty : (marshalMedia ab m).media = m.typ := rfl
   unfold unmarshalFormat
   simp only [replaceSmartPayloadType, isSmartPT_dec, Bool.false_eq_true, if_false, hpt, hr, hfm, hty]
-  exact fmt_roundtrip_all O m.typ f (hm.formats_ok f hf)
+  exact (hm.formats_ok f hf).2
 
-theorem unmarshalFormats_marshal (O : Oracle) (ab : Bool) (m : Media) (hm : ValidMedia O m) (fs : List Format)
+theorem unmarshalFormats_marshal (O : Oracle) (ab : Bool) (m : Media) (hm : GoodMedia O m) (fs : List Format)
     (hfs : ∀ f ∈ fs, f ∈ m.formats) :
     unmarshalFormats O (marshalMedia ab m) (fs.map fun f => dec f.pt) = .ok fs := by
   induction fs with
